@@ -305,7 +305,11 @@ class PathWalker:
                         for n in ast.walk(t):
                             if isinstance(n, ast.Name):
                                 e2[n.id] = UNKNOWN
-                # attribute / subscript stores do not change locals
+                elif isinstance(t, ast.Attribute) and isinstance(t.value, ast.Name):
+                    # recorded under "<name>.<attr>" (never a Name id, so substitution ignores it): what the
+                    # path last stored into a field of a local object
+                    e2[f"{t.value.id}.{t.attr}"] = sv if _size(sv) < 400 else UNKNOWN  # type: ignore[arg-type]
+                # subscript stores do not change locals
             yield from cont(conds, e2, calls + [subst(c, env) for c in calls_in(value)])  # type: ignore[misc]
             return
         if isinstance(st, ast.AugAssign):
